@@ -139,4 +139,15 @@ PROPS.update({
         "explanation": "SinglePatternMatcher::find_matches / match_exists and NaiveManyMatcher are compared with the extracted model (exact sequences) "
                        "and with an independent occurrence scan (exact anchor lists, order included); pattern -> constraint vectors are compared exactly.",
         "technique": "differential correspondence with the Gallina model of the single-pattern matcher + occurrence oracle"},
+    "C11": {"subs": ["c11"], "level": "proof",
+        "rule": "random patterns (as for C01) inside sets of 1-4 patterns; each pattern is matched against its own instantiation (variables instantiated "
+                "consistently, also with equal characters for different variables; matrix holes filled), then along a random history of host extensions "
+                "of length <= 6 (quick) / 20 (thorough); the same from an occurrence found in a random planted host; every check is one case; "
+                "non-trivial = all of them (each involves an occurrence)",
+        "trusted_base": AUT_TB, "assumptions": AUT_ASSUME + ["port graphs: not covered by a theorem"], "timeout": 3000,
+        "explanation": "Theorems c11_*: self-occurrence and preservation of occurrence under every extension step are proved on the occurrence "
+                       "semantics for all patterns, hosts and histories (strings, matrices); that the occurrence is then reported by ManyMatcher and "
+                       "SinglePatternMatcher at the corresponding anchor is checked on the implementation at every step of every generated history; "
+                       "the Rust occurrence oracle is compared with the Coq specification on every host of every history.",
+        "technique": "Coq proof on the occurrence specification + self/extension-history testing of the matchers against it"},
 })
